@@ -374,4 +374,34 @@ theorem format_length_le_succ {s : Bytes} {m : Nat} (h : parse s = some m) :
         split <;> simp <;> omega
       exact ⟨by omega, fun _ => this⟩
 
+
+/-- among the accepted spellings that do not start with the point, the formatted string is the ONLY one of
+    minimal length -/
+theorem format_unique_shortest {s : Bytes} {m : Nat} (h : parse s = some m)
+    (hd : ∀ rest, s ≠ dot :: rest) (hl : s.length ≤ (format m).length) : s = format m := by
+  rcases parse_some_shape h with ⟨hs, hne, hv⟩ | ⟨ip, fp, e, hip, hfp, hne, hv⟩
+  · rw [format_of_value (by rfl) hv] at hl ⊢
+    rw [trimRight0_nil, ofDigits_nil, if_pos rfl] at hl ⊢
+    have := render_ofDigits_length_le hne hs
+    exact (render_ofDigits_eq_of_length hs (by omega)).symm
+  · subst e
+    have hipe : ip ≠ [] := by
+      intro e; subst e; exact hd fp rfl
+    have h1 := render_ofDigits_length_le hipe hip
+    have h2 := trimRight0_length_le fp
+    rw [format_of_value hfp hv] at hl ⊢
+    by_cases hz : ofDigits (trimRight0 fp) = 0
+    · rw [if_pos hz] at hl
+      simp only [List.length_append, List.length_cons] at hl
+      omega
+    · rw [if_neg hz] at hl ⊢
+      simp only [List.length_append, List.length_cons] at hl
+      have e1 := render_ofDigits_eq_of_length hip (by omega)
+      have e2 : trimRight0 fp = fp := by
+        have hdz := trimRight0_decomp fp
+        have : fp.length - (trimRight0 fp).length = 0 := by omega
+        rw [this] at hdz
+        simpa [zeros] using hdz.symm
+      rw [e1, e2]
+
 end MW.Spec.Amount
